@@ -1,5 +1,6 @@
 import PartituraModel.Wire
 import PartituraModel.Model.TimeMap
+import PartituraModel.Model.TimeMapHist
 
 open Wire Model.TimeMap
 
@@ -27,10 +28,52 @@ def parsePart : P Part := do
   pure { npoints := n, first := first, last := last, qd := qd, ts := sortTS st.ts, m1 := m1,
          musical := st.musical }
 
+/-- one step of an edit/query history -/
+def parseHOp : P HOp := do
+  let t ← tok
+  match t with
+  | "qd" => do let t ← int; let q ← nat; pure (HOp.setQD t q)
+  | "ts" => do let t ← int; let b ← nat; let bt ← nat; pure (HOp.beat (Op.addTS t b bt))
+  | "set" => do let tbl ← parseTbl; pure (HOp.beat (Op.setMB tbl))
+  | "mus" => do let tbl ← parseTbl; pure (HOp.beat (Op.useMusical tbl))
+  | "not" => pure (HOp.beat Op.useNotated)
+  | "mea" => do let s ← int; let e ← int; pure (HOp.measure s e)
+  | "span" => do let s ← int; let e ← int; pure (HOp.span s e)
+  | "q" => pure HOp.query
+  | _ => P.fail
+
+/-- argument of any shape: `S <rat>` a scalar, `L <n> item*` a sequence; `depth` bounds the nesting -/
+def parseNested : Nat → P (Nested Rat)
+  | 0 => do
+    let t ← tok
+    match t with
+    | "S" => do let r ← rat; pure (Nested.leaf r)
+    | _ => P.fail
+  | d + 1 => do
+    let t ← tok
+    match t with
+    | "S" => do let r ← rat; pure (Nested.leaf r)
+    | "L" => do let xs ← list (parseNested d); pure (Nested.node xs)
+    | _ => P.fail
+
 def fmtVal (o : Option Rat) : String :=
   match o with
   | some r => fmtRat r
   | none => "nan"
+
+def fmtQ (o : Option Nat) : String :=
+  match o with
+  | some n => fmtNat n
+  | none => "nan"
+
+mutual
+  def fmtNested {α : Type} (f : α → String) : Nested α → String
+    | .leaf a => f a
+    | .node xs => "[" ++ ",".intercalate (fmtNestedList f xs) ++ "]"
+  def fmtNestedList {α : Type} (f : α → String) : List (Nested α) → List String
+    | [] => []
+    | x :: xs => fmtNested f x :: fmtNestedList f xs
+end
 
 def answer (f : Part → Rat → Option Rat) (modeOf : Part → Mode) (rest : List String) : String :=
   match run (do let p ← parsePart; let xs ← list rat; pure (p, xs)) rest with
@@ -38,17 +81,38 @@ def answer (f : Part → Rat → Option Rat) (modeOf : Part → Mode) (rest : Li
   | some (p, xs) =>
     if raises p (modeOf p) then "err" else fmtList fmtVal (xs.map (f p))
 
+/-- the same maps called on an argument of any shape -/
+def answerN (f : Part → Rat → Option Rat) (modeOf : Part → Mode) (rest : List String) : String :=
+  match run (do let p ← parsePart; let a ← parseNested 4; pure (p, a)) rest with
+  | none => "bad-request"
+  | some (p, a) =>
+    if raises p (modeOf p) then "err" else fmtNested fmtVal (callMap (f p) a)
+
+def fmtState (p : Part) : String :=
+  fmtTuple [fmtNat p.npoints, fmtInt p.first, fmtInt p.last,
+    fmtList (fun e => fmtTuple [fmtInt e.1, fmtNat e.2]) p.qd,
+    fmtBool p.musical,
+    fmtList (fun s => fmtTuple [fmtInt s.t, fmtNat s.beats, fmtNat s.beatType, fmtNat s.mb]) p.ts,
+    fmtOpt (fun m => fmtTuple [fmtInt m.1, fmtInt m.2]) p.m1]
+
 def handle (ts : List String) : String :=
   match ts with
   | "bm" :: rest => answer beatMap beatMode rest
   | "ibm" :: rest => answer invBeatMap beatMode rest
   | "qm" :: rest => answer quarterMap (fun _ => Mode.quarter) rest
   | "iqm" :: rest => answer invQuarterMap (fun _ => Mode.quarter) rest
+  | "nbm" :: rest => answerN beatMap beatMode rest
+  | "nibm" :: rest => answerN invBeatMap beatMode rest
+  | "nqm" :: rest => answerN quarterMap (fun _ => Mode.quarter) rest
+  | "niqm" :: rest => answerN invQuarterMap (fun _ => Mode.quarter) rest
   | "qdm" :: rest =>
     match run (do let p ← parsePart; let xs ← list rat; pure (p, xs)) rest with
     | none => "bad-request"
-    | some (p, xs) =>
-      fmtList (fun o => match o with | some (n : Nat) => fmtNat n | none => "nan") (xs.map (qdMap p.qd))
+    | some (p, xs) => fmtList fmtQ (xs.map (qdMap p.qd))
+  | "nqdm" :: rest =>
+    match run (do let p ← parsePart; let a ← parseNested 4; pure (p, a)) rest with
+    | none => "bad-request"
+    | some (p, a) => fmtNested fmtQ (callQD p.qd a)
   | "mbs" :: rest =>
     -- the musical beats stored on every signature after the op history, in timeline order
     match run (list parseOp) rest with
@@ -56,6 +120,31 @@ def handle (ts : List String) : String :=
     | some ops =>
       let st := runOps ops
       fmtTuple [fmtBool st.musical, fmtList (fun s => fmtTuple [fmtInt s.t, fmtNat s.beats, fmtNat s.beatType, fmtNat s.mb]) (sortTS st.ts)]
+  | "hist" :: rest =>
+    -- the state `_time_interpolator` reads after an edit/query history, computed by the model alone
+    match run (do let q0 ← nat; let h ← list parseHOp; pure (q0, h)) rest with
+    | none => "bad-request"
+    | some (q0, h) => fmtState (buildPart q0 h)
+  | "hmap" :: which :: rest =>
+    -- a map of the part the MODEL builds from the history (nothing read off the real object)
+    match run (do let q0 ← nat; let h ← list parseHOp; let xs ← list rat; pure (q0, h, xs)) rest with
+    | none => "bad-request"
+    | some (q0, h, xs) =>
+      let p := buildPart q0 h
+      match which with
+      | "bm" => if raises p (beatMode p) then "err" else fmtList fmtVal (xs.map (beatMap p))
+      | "qm" => fmtList fmtVal (xs.map (quarterMap p))
+      | "ibm" => if raises p (beatMode p) then "err" else fmtList fmtVal (xs.map (invBeatMap p))
+      | "iqm" => fmtList fmtVal (xs.map (invQuarterMap p))
+      | "qdm" => fmtList fmtQ (xs.map (qdMap p.qd))
+      | _ => "bad-request"
+  | "diff" :: which :: rest =>
+    -- map of part 1 minus map of part 2 at common positions (score level)
+    match run (do let p1 ← parsePart; let p2 ← parsePart; let xs ← list rat; pure (p1, p2, xs)) rest with
+    | none => "bad-request"
+    | some (p1, p2, xs) =>
+      let m := if which = "q" then Mode.quarter else beatMode p1
+      if raises p1 m || raises p2 m then "err" else fmtList fmtVal (xs.map (mapDiff p1 p2 m))
   | _ => "bad-request"
 
 def main : IO Unit := mainLoop handle
